@@ -8,6 +8,7 @@ import (
 	"fmt"
 	"math/rand"
 	"reflect"
+	"sort"
 
 	"github.com/yaricom/goNEAT/v4/experiment"
 	"github.com/yaricom/goNEAT/v4/neat"
@@ -23,15 +24,17 @@ type expCase struct {
 	Gens     int             `json:"gens"`
 	Script   [][]string      `json:"script"`
 	Observer bool            `json:"observer"`
-	OCancel  [][]interface{} `json:"ocancel"` // notifications [kind, run, gen] during which the observer cancels the context
-	Evals    [][]interface{} `json:"evals"`   // [run, gen, [popRun, turnovers]]
-	Calls    [][]interface{} `json:"calls"`   // [kind, run, gen]
+	OCancel  [][]interface{} `json:"ocancel"`   // notifications [kind, run, gen] during which the observer cancels the context
+	Evals    [][]interface{} `json:"evals"`     // [run, gen, [popRun, turnovers]]
+	Calls    [][]interface{} `json:"calls"`     // [kind, run, gen]
+	CallsAlt [][]interface{} `json:"calls_alt"` // the observer log when the generation cancelled during its evaluation is still notified
 	Trials   []struct {
 		Id   int             `json:"id"`
 		Gens [][]interface{} `json:"gens"` // [id, solved]
 	} `json:"trials"`
 	FinalPops [][]int `json:"final_pops"`
 	Err       string  `json:"err"`
+	Lazy      bool    `json:"lazy"` // the behaviour of an implementation that turns a population over just before its next evaluation
 }
 
 var errScripted = errors.New("scripted evaluator failure")
@@ -58,6 +61,7 @@ type scriptedEvaluator struct {
 	cancel context.CancelFunc
 	evals  [][]interface{}
 	pops   map[*genetics.Population]*popTrack
+	ref    *genetics.Population // a reference spawn (NewPopulation of the same start genome and options)
 	order  []*genetics.Population
 	bad    string
 }
@@ -72,7 +76,25 @@ func (s *scriptedEvaluator) observe(pop *genetics.Population) *popTrack {
 		t = &popTrack{index: len(s.order)}
 		s.pops[pop] = t
 		s.order = append(s.order, pop)
-		// a freshly spawned population shares no organism with an earlier one
+		// a freshly spawned population is what NewPopulation returns: no organism or species of it has been through an epoch
+		// turnover yet (birth generation and species age as in a reference spawn made by the harness) ...
+		if s.ref != nil && len(s.ref.Organisms) > 0 && len(s.ref.Species) > 0 {
+			for _, o := range pop.Organisms {
+				if o.Generation != s.ref.Organisms[0].Generation {
+					s.bad += fmt.Sprintf("the population first presented for a trial is not freshly spawned: it holds an organism born in generation %d (a spawn gives %d); ",
+						o.Generation, s.ref.Organisms[0].Generation)
+					break
+				}
+			}
+			for _, sp := range pop.Species {
+				if sp.Age != s.ref.Species[0].Age {
+					s.bad += fmt.Sprintf("the population first presented for a trial is not freshly spawned: it holds a species of age %d (a spawn gives %d); ",
+						sp.Age, s.ref.Species[0].Age)
+					break
+				}
+			}
+		}
+		// ... and shares no organism with an earlier one
 		for _, p := range s.order[:len(s.order)-1] {
 			for o := range s.pops[p].last {
 				if cur[o] {
@@ -134,6 +156,7 @@ type recordingObserver struct {
 	calls   [][]interface{}
 	ocancel [][]interface{}
 	cancel  context.CancelFunc
+	bad     string
 }
 
 func (r *recordingObserver) note(kind string, run, gen int) {
@@ -144,7 +167,12 @@ func (r *recordingObserver) note(kind string, run, gen int) {
 		}
 	}
 }
-func (r *recordingObserver) TrialRunStarted(t *experiment.Trial)  { r.note("start", t.Id, -1) }
+func (r *recordingObserver) TrialRunStarted(t *experiment.Trial) {
+	if len(t.Generations) != 0 {
+		r.bad += fmt.Sprintf("TrialRunStarted(trial %d) was handed a trial that already holds %d generations; ", t.Id, len(t.Generations))
+	}
+	r.note("start", t.Id, -1)
+}
 func (r *recordingObserver) TrialRunFinished(t *experiment.Trial) { r.note("finish", t.Id, -1) }
 func (r *recordingObserver) EpochEvaluated(t *experiment.Trial, g *experiment.Generation) {
 	r.note("epoch", t.Id, g.Id)
@@ -162,6 +190,65 @@ func norm(v interface{}) interface{} {
 
 func init() { commands["replay-experiment"] = replayExperiment }
 
+// compare judges one real run against one behaviour of the specification (evaluator log, observer log, recorded trials,
+// final populations, returned error); "" = the behaviour explains the run.
+func (c *expCase) compare(ev *scriptedEvaluator, obs *recordingObserver, exp *experiment.Experiment, runErr error) (bad string) {
+	gotErr := ""
+	switch {
+	case runErr == nil:
+	case errors.Is(runErr, errScripted):
+		gotErr = "fail"
+	case errors.Is(runErr, context.Canceled):
+		gotErr = "cancelled"
+	default:
+		gotErr = "other: " + runErr.Error()
+	}
+	if gotErr != c.Err {
+		bad += fmt.Sprintf("Execute returned error %q, specification says %q; ", gotErr, c.Err)
+	}
+	if !reflect.DeepEqual(norm(ev.evals), norm(c.Evals)) {
+		bad += fmt.Sprintf("evaluator saw %v, specification says %v; ", norm(ev.evals), norm(c.Evals))
+	}
+	if !reflect.DeepEqual(norm(obs.calls), norm(c.Calls)) && !(c.CallsAlt != nil && reflect.DeepEqual(norm(obs.calls), norm(c.CallsAlt))) {
+		bad += fmt.Sprintf("observer saw %v, specification says %v; ", norm(obs.calls), norm(c.Calls))
+	}
+	// recorded trials, in order
+	if len(exp.Trials) < len(c.Trials) {
+		bad += fmt.Sprintf("%d trials recorded, specification says %d; ", len(exp.Trials), len(c.Trials))
+	} else {
+		if runErr == nil && len(exp.Trials) != c.Runs {
+			bad += fmt.Sprintf("%d trials recorded for %d configured runs; ", len(exp.Trials), c.Runs)
+		}
+		for i, want := range c.Trials {
+			got := exp.Trials[i]
+			var gens [][]interface{}
+			for _, g := range got.Generations {
+				gens = append(gens, []interface{}{g.Id, g.Solved})
+			}
+			if got.Id != want.Id || !reflect.DeepEqual(norm(gens), norm(want.Gens)) {
+				if !(len(gens) == 0 && len(want.Gens) == 0 && got.Id == want.Id) {
+					bad += fmt.Sprintf("trial %d recorded as id=%d gens=%v, specification says id=%d gens=%v; ",
+						i, got.Id, norm(gens), want.Id, norm(want.Gens))
+				}
+			}
+		}
+	}
+	// the population of every finished trial is in the state the specification says (no turnover after solved)
+	for i, fp := range c.FinalPops {
+		if i >= len(ev.order) {
+			if c.Gens > 0 {
+				bad += fmt.Sprintf("trial %d never presented a population; ", i)
+			}
+			continue
+		}
+		t := ev.observe(ev.order[i])
+		if t.index != fp[0] || t.turnovers != fp[1] {
+			bad += fmt.Sprintf("population of trial %d ended as <<%d,%d>>, specification says %v; ", i, t.index, t.turnovers, fp)
+		}
+	}
+	return bad
+}
+
 func replayExperiment(args []string) int {
 	fs := flag.NewFlagSet("replay-experiment", flag.ExitOnError)
 	cases := fs.String("cases", "", "NDJSON behaviours printed by MC_Experiment")
@@ -169,91 +256,95 @@ func replayExperiment(args []string) int {
 	_ = fs.Parse(args)
 	rep := &report{Command: "replay-experiment"}
 	start := readGenomeString(xorStartGenome, 1)
+	// The specification may allow several behaviours for one input (script, observer, observer cancellations): where the
+	// statement of C20 leaves the moment of the epoch turnover open (Experiment.tla, `lazy`).  Behaviours are grouped by
+	// input; a real run is accepted when SOME behaviour of its group explains it.
+	type group struct {
+		variants []*expCase
+		raws     []json.RawMessage
+	}
+	groups := map[string]*group{}
+	var order []string
 	err := readNDJSON(*cases, func(line []byte) error {
-		var c expCase
-		if err := json.Unmarshal(line, &c); err != nil {
+		c := &expCase{}
+		if err := json.Unmarshal(line, c); err != nil {
 			return err
 		}
-		rep.Cases++
-		raw := json.RawMessage(append([]byte(nil), line...))
+		kb, _ := json.Marshal([]interface{}{c.Runs, c.Gens, c.Script, c.Observer, c.OCancel})
+		g, ok := groups[string(kb)]
+		if !ok {
+			g = &group{}
+			groups[string(kb)] = g
+			order = append(order, string(kb))
+		}
+		g.variants = append(g.variants, c)
+		g.raws = append(g.raws, json.RawMessage(append([]byte(nil), line...)))
+		return nil
+	})
+	if err != nil {
+		fmt.Println("vh replay-experiment:", err)
+		return 2
+	}
+	for _, key := range order {
+		g := groups[key]
+		// the behaviour of the code as found (eager turnover) first: its differences are the ones reported
+		sort.SliceStable(g.variants, func(a, b int) bool { return !g.variants[a].Lazy && g.variants[b].Lazy })
+		c := g.variants[0]
+		rep.Cases += len(g.variants)
+		raw := g.raws[0]
 		for _, executor := range []neat.EpochExecutorType{neat.EpochExecutorTypeSequential, neat.EpochExecutorTypeParallel} {
-			rand.Seed(envSeed() + int64(rep.Cases))
 			opts := baseOptions(8)
 			opts.NumRuns, opts.NumGenerations, opts.EpochExecutorType = c.Runs, c.Gens, executor
-			ctx, cancel := context.WithCancel(context.Background())
-			ev := &scriptedEvaluator{c: &c, cancel: cancel, pops: map[*genetics.Population]*popTrack{}}
-			obs := &recordingObserver{ocancel: c.OCancel, cancel: cancel}
 			exp := experiment.Experiment{Id: 1}
-			var runErr error
-			bad := ""
-			if p := guard(func() {
-				if c.Observer {
-					runErr = exp.Execute(neat.NewContext(ctx, opts), start, ev, obs)
-				} else {
-					runErr = exp.Execute(neat.NewContext(ctx, opts), start, ev, nil)
-				}
-			}); p != "" {
-				bad += "Execute panicked: " + p + "; "
-			}
-			cancel()
-			rep.Evaluations++
-			bad += ev.bad
-			gotErr := ""
-			switch {
-			case runErr == nil:
-			case errors.Is(runErr, errScripted):
-				gotErr = "fail"
-			case errors.Is(runErr, context.Canceled):
-				gotErr = "cancelled"
-			default:
-				gotErr = "other: " + runErr.Error()
-			}
-			if gotErr != c.Err {
-				bad += fmt.Sprintf("Execute returned error %q, specification says %q; ", gotErr, c.Err)
-			}
-			if !reflect.DeepEqual(norm(ev.evals), norm(c.Evals)) {
-				bad += fmt.Sprintf("evaluator saw %v, specification says %v; ", norm(ev.evals), norm(c.Evals))
-			}
-			if !reflect.DeepEqual(norm(obs.calls), norm(c.Calls)) {
-				bad += fmt.Sprintf("observer saw %v, specification says %v; ", norm(obs.calls), norm(c.Calls))
-			}
-			// recorded trials, in order
-			if len(exp.Trials) < len(c.Trials) {
-				bad += fmt.Sprintf("%d trials recorded, specification says %d; ", len(exp.Trials), len(c.Trials))
-			} else {
-				if runErr == nil && len(exp.Trials) != c.Runs {
-					bad += fmt.Sprintf("%d trials recorded for %d configured runs; ", len(exp.Trials), c.Runs)
-				}
-				for i, want := range c.Trials {
-					got := exp.Trials[i]
-					var gens [][]interface{}
-					for _, g := range got.Generations {
-						gens = append(gens, []interface{}{g.Id, g.Solved})
+			rand.Seed(envSeed() + int64(rep.Cases))
+			ref, _ := genetics.NewPopulation(start, opts)
+			// Execute is a function of its arguments: what the Experiment value holds from an earlier Execute does not matter.
+			// Every behaviour is therefore run twice on the SAME Experiment value and judged against the specification both times.
+			for pass := 1; pass <= 2; pass++ {
+				rand.Seed(envSeed() + int64(rep.Cases) + int64(pass-1)*7919)
+				ctx, cancel := context.WithCancel(context.Background())
+				ev := &scriptedEvaluator{c: c, cancel: cancel, pops: map[*genetics.Population]*popTrack{}, ref: ref}
+				obs := &recordingObserver{ocancel: c.OCancel, cancel: cancel}
+				var runErr error
+				bad := ""
+				if p := guard(func() {
+					if c.Observer {
+						runErr = exp.Execute(neat.NewContext(ctx, opts), start, ev, obs)
+					} else {
+						runErr = exp.Execute(neat.NewContext(ctx, opts), start, ev, nil)
 					}
-					if got.Id != want.Id || !reflect.DeepEqual(norm(gens), norm(want.Gens)) {
-						if !(len(gens) == 0 && len(want.Gens) == 0 && got.Id == want.Id) {
-							bad += fmt.Sprintf("trial %d recorded as id=%d gens=%v, specification says id=%d gens=%v; ",
-								i, got.Id, norm(gens), want.Id, norm(want.Gens))
-						}
+				}); p != "" {
+					bad += "Execute panicked: " + p + "; "
+				}
+				cancel()
+				rep.Evaluations++
+				bad += ev.bad + obs.bad
+				first := ""
+				explained := false
+				for k, v := range g.variants {
+					d := v.compare(ev, obs, &exp, runErr)
+					if k == 0 {
+						first = d
+					}
+					if d == "" {
+						explained = true
+						break
 					}
 				}
-			}
-			// the population of every finished trial is in the state the specification says (no turnover after solved)
-			for i, fp := range c.FinalPops {
-				if i >= len(ev.order) {
-					if c.Gens > 0 {
-						bad += fmt.Sprintf("trial %d never presented a population; ", i)
+				if !explained {
+					bad += first
+					if len(g.variants) > 1 {
+						bad += fmt.Sprintf("(none of the %d admissible behaviours for this input explains the run; differences to the first are shown) ", len(g.variants))
 					}
-					continue
 				}
-				t := ev.observe(ev.order[i])
-				if t.index != fp[0] || t.turnovers != fp[1] {
-					bad += fmt.Sprintf("population of trial %d ended as <<%d,%d>>, specification says %v; ", i, t.index, t.turnovers, fp)
+				if bad != "" {
+					if pass == 2 {
+						bad = "[second Execute on the same Experiment value] " + bad
+					}
+					rep.fail(map[string]interface{}{"case": raw, "cases": g.raws, "executor": string(executor), "what": bad,
+						"signature": "experiment " + string(raw)})
+					break
 				}
-			}
-			if bad != "" {
-				rep.fail(map[string]interface{}{"case": raw, "executor": string(executor), "what": bad,
-					"signature": "experiment " + string(line)})
 			}
 		}
 		interesting := len(c.OCancel) > 0
@@ -268,11 +359,6 @@ func replayExperiment(args []string) int {
 				rep.sample(raw)
 			}
 		}
-		return nil
-	})
-	if err != nil {
-		fmt.Println("vh replay-experiment:", err)
-		return 2
 	}
 	return rep.write(*out)
 }
